@@ -349,7 +349,8 @@ class ReservablePriorityReqFilterStore(FilterStore):
                   self.reserved_events.append(event)
                   #the reservation is bound by position: move the matching item next to the items that are already reserved
                   self.items.insert(item_len, self.items.pop(item_index))
-                  break
+                  #the head of the queue has been served: let _trigger_reserve_get go on to the next waiting request, which may have been hidden behind a head whose filter matched nothing
+                  return True
 
 
 
